@@ -120,6 +120,24 @@ fn run<const B: usize, const L: usize>(p: &[&str]) -> String {
             let r = res_parse(U::<B, L>::from_str_radix(&s, radix));
             prim_parse_check(B, radix, &s, &r).unwrap_or(r)
         }
+        "sweep" => {
+            // every Unicode scalar value in [lo, hi] as the second character of "1<c>" ("B<c>" above radix 36): the characters whose outcome is not
+            // the default `Err(InvalidDigit(c))` are listed with their outcome (exhaustive over `char` for the radix)
+            let radix = u64::from_str_radix(p[2], 16).unwrap();
+            let (lo, hi) = p[3].split_once('-').unwrap();
+            let (lo, hi) = (u32::from_str_radix(lo, 16).unwrap(), u32::from_str_radix(hi, 16).unwrap());
+            let mut out: Vec<String> = Vec::new();
+            for cp in lo..=hi {
+                let Some(c) = char::from_u32(cp) else { continue };
+                let mut s = String::from(if radix <= 36 { "1" } else { "B" });
+                s.push(c);
+                let r = res_parse(U::<B, L>::from_str_radix(&s, radix));
+                if r != format!("err InvalidChar {cp:x}") {
+                    out.push(format!("{cp:x}={}", r.replace(' ', "_")));
+                }
+            }
+            if out.is_empty() { "-".into() } else { out.join(";") }
+        }
         "fs" => {
             let s = text(p[2]);
             res_parse(<U<B, L> as FromStr>::from_str(&s))
